@@ -23,9 +23,9 @@ Lemma bijective : forall e, In e enums -> forall m, In m (e_rows e) ->
   /\ m_xml m = m_xml c.
 Proof.
   intros e He m Hm Hx Hk rows c.
-  pose proof (proj1 (forallb_forall _ _) all_bij e He) as H. simpl in H.
-  pose proof (proj1 (forallb_forall _ _) H m Hm) as H'. simpl in H'.
-  rewrite Hk in H'. simpl in H'. unfold bij_row_ok in H'. rewrite Hx in H'. simpl in H'.
+  pose proof (proj1 (forallb_forall _ _) all_bij e He) as H. cbv beta in H.
+  pose proof (proj1 (forallb_forall _ _) H m Hm) as H'. cbv beta in H'.
+  rewrite Hk in H'. cbn [negb orb] in H'. unfold bij_row_ok in H'. rewrite Hx in H'. cbn [negb orb] in H'.
   destruct (canon_of_spec (e_rows e) m Hm) as (Hc & Hv & _).
   destruct (bij_ok_sound (e_rows e) m Hm Hx H') as (D & T & F & X).
   repeat split; auto.
@@ -39,22 +39,22 @@ Lemma bij_known_refuted : forall e, In e enums -> forall m, In m (e_rows e) ->
   has_xml (canon_of (e_rows e) m) = true /\ bij_ok (e_rows e) m = false.
 Proof.
   intros e He m Hm Hk.
-  pose proof (proj1 (forallb_forall _ _) all_bij_refuted e He) as H. simpl in H.
-  pose proof (proj1 (forallb_forall _ _) H m Hm) as H'. simpl in H'.
-  rewrite Hk in H'. simpl in H'. apply negb_true_iff in H'. unfold bij_row_ok in H'.
+  pose proof (proj1 (forallb_forall _ _) all_bij_refuted e He) as H. cbv beta in H.
+  pose proof (proj1 (forallb_forall _ _) H m Hm) as H'. cbv beta in H'.
+  rewrite Hk in H'. cbn [negb orb] in H'. apply negb_true_iff in H'. unfold bij_row_ok in H'.
   apply orb_false_iff in H' as [H1 H2]. apply negb_false_iff in H1. auto.
 Qed.
 
 (** *** tokens in the schema *)
-Notation tok_ok := (EnumLib.tok_ok stypes).
-Notation use_rows := (EnumLib.use_rows enums).
+Local Notation tok_ok := (EnumLib.tok_ok stypes).
+Local Notation use_rows := (EnumLib.use_rows enums).
 
 Lemma all_uses_resolve : forallb (fun u => match enum_by_id enums (u_enum u) with Some _ => true | None => false end) uses = true.
 Proof. vm_compute. reflexivity. Qed.
 
 Lemma uses_resolve : forall u, In u uses -> exists e, In e enums /\ e_id e = u_enum u /\ enum_by_id enums (u_enum u) = Some e.
 Proof.
-  intros u Hu. pose proof (proj1 (forallb_forall _ _) all_uses_resolve u Hu) as H. simpl in H.
+  intros u Hu. pose proof (proj1 (forallb_forall _ _) all_uses_resolve u Hu) as H. cbv beta in H.
   destruct (enum_by_id enums (u_enum u)) as [e|] eqn:E; [|discriminate].
   exists e. unfold enum_by_id in E. apply find_some in E as E'. destruct E' as [Hin Hid].
   apply N.eqb_eq in Hid. auto.
@@ -65,7 +65,7 @@ Proof. vm_compute. reflexivity. Qed.
 
 Lemma every_enum_used : forall e, In e enums -> exists u, In u uses /\ u_enum u = e_id e.
 Proof.
-  intros e He. pose proof (proj1 (forallb_forall _ _) all_enums_used e He) as H. simpl in H.
+  intros e He. pose proof (proj1 (forallb_forall _ _) all_enums_used e He) as H. cbv beta in H.
   apply existsb_exists in H as (u & Hu & E). apply N.eqb_eq in E. eauto.
 Qed.
 
@@ -78,10 +78,10 @@ Lemma tokens_in_schema : forall u, In u uses -> forall e, enum_by_id enums (u_en
   token_in_P stypes (u_stype u) (token m).
 Proof.
   intros u Hu e He m Hm Hx Hk.
-  pose proof (proj1 (forallb_forall _ _) all_tok u Hu) as H. simpl in H.
+  pose proof (proj1 (forallb_forall _ _) all_tok u Hu) as H. cbv beta in H.
   unfold use_rows in H. rewrite He in H.
-  pose proof (proj1 (forallb_forall _ _) H m Hm) as H'. simpl in H'.
-  rewrite Hk in H'. simpl in H'. unfold tok_ok in H'. rewrite Hx in H'. simpl in H'.
+  pose proof (proj1 (forallb_forall _ _) H m Hm) as H'. cbv beta in H'.
+  rewrite Hk in H'. cbn [negb orb] in H'. unfold tok_ok in H'. rewrite Hx in H'. cbn [negb orb] in H'.
   apply token_in_sound. exact H'.
 Qed.
 
@@ -93,9 +93,9 @@ Lemma tok_known_refuted : forall u, In u uses -> forall m, In m (use_rows u) ->
   has_xml m = true /\ token_in stypes (u_stype u) (token m) = false.
 Proof.
   intros u Hu m Hm Hk.
-  pose proof (proj1 (forallb_forall _ _) all_tok_refuted u Hu) as H. simpl in H.
-  pose proof (proj1 (forallb_forall _ _) H m Hm) as H'. simpl in H'.
-  rewrite Hk in H'. simpl in H'. apply negb_true_iff in H'. unfold tok_ok in H'.
+  pose proof (proj1 (forallb_forall _ _) all_tok_refuted u Hu) as H. cbv beta in H.
+  pose proof (proj1 (forallb_forall _ _) H m Hm) as H'. cbv beta in H'.
+  rewrite Hk in H'. cbn [negb orb] in H'. apply negb_true_iff in H'. unfold tok_ok in H'.
   apply orb_false_iff in H' as [H1 H2]. apply negb_false_iff in H1. auto.
 Qed.
 
@@ -110,8 +110,8 @@ Lemma presets : forall m, In m (canonical shape_rows) -> memN (m_id m) known_pre
     /\ map fst (sp_av sp) = map fst (pd_av d)
     /\ map (fun p => Some (snd p)) (sp_av sp) = map (fun p => parse_val (snd p)) (pd_av d).
 Proof.
-  intros m Hm Hk. pose proof (proj1 (forallb_forall _ _) all_presets m Hm) as H. simpl in H.
-  rewrite Hk in H. simpl in H. apply preset_ok_sound. exact H.
+  intros m Hm Hk. pose proof (proj1 (forallb_forall _ _) all_presets m Hm) as H. cbv beta in H.
+  rewrite Hk in H. cbn [negb orb] in H. apply preset_ok_sound. exact H.
 Qed.
 
 Lemma all_presets_refuted : forallb (fun m => negb (memN (m_id m) known_presets) || negb (preset_ok spec_table preset_defs m)) (canonical shape_rows) = true.
@@ -120,8 +120,8 @@ Proof. vm_compute. reflexivity. Qed.
 Lemma presets_known_refuted : forall m, In m (canonical shape_rows) -> memN (m_id m) known_presets = true ->
   preset_ok spec_table preset_defs m = false.
 Proof.
-  intros m Hm Hk. pose proof (proj1 (forallb_forall _ _) all_presets_refuted m Hm) as H. simpl in H.
-  rewrite Hk in H. simpl in H. apply negb_true_iff in H. exact H.
+  intros m Hm Hk. pose proof (proj1 (forallb_forall _ _) all_presets_refuted m Hm) as H. cbv beta in H.
+  rewrite Hk in H. cbn [negb orb] in H. apply negb_true_iff in H. exact H.
 Qed.
 
 (** the table has no key outside the enumeration *)
@@ -131,9 +131,12 @@ Proof. vm_compute. reflexivity. Qed.
 Lemma spec_keys_are_members : forall sp, In sp spec_table ->
   exists m, In m (canonical shape_rows) /\ m_value m = sp_value sp.
 Proof.
-  intros sp Hs. pose proof (proj1 (forallb_forall _ _) all_spec_keys sp Hs) as H. simpl in H.
+  intros sp Hs. pose proof (proj1 (forallb_forall _ _) all_spec_keys sp Hs) as H. cbv beta in H.
   apply existsb_exists in H as (m & Hm & E). apply Z.eqb_eq in E. eauto.
 Qed.
+
+Lemma shape_enum_in : In shape_enum enums.
+Proof. apply (nth_error_In enums shape_enum_index). reflexivity. Qed.
 
 (** a shape whose table row passes reports, when new, exactly the definition's guides *)
 Lemma preset_read_back : forall m, In m (canonical shape_rows) -> memN (m_id m) known_presets = false ->
@@ -146,16 +149,12 @@ Lemma preset_read_back : forall m, In m (canonical shape_rows) -> memN (m_id m) 
 Proof.
   intros m Hm Hk Hb Hx.
   destruct (presets m Hm Hk) as (sp & d & S & Sv & D & _ & _ & _ & E1 & E2).
-  assert (He : In {| e_id := shape_enum; e_name := []; e_rows := shape_rows |} [] \/ True) by auto.
   (* the round trip for this member, from the bijection instance *)
   assert (F : from_xml shape_rows (token m) = Ok m).
-  { assert (Hin : exists e, In e enums /\ e_rows e = shape_rows).
-    { unfold enums, shape_rows. eexists. split; [|reflexivity]. vm_compute. tauto. }
-    destruct Hin as (e & Hin & Er).
-    assert (Hm' : In m (e_rows e)) by (rewrite Er; apply canonical_incl; auto).
-    assert (Hc : canon_of (e_rows e) m = m) by (rewrite Er; apply canon_of_canonical; auto).
-    pose proof (bijective e Hin m Hm') as B. simpl in B. rewrite Hc in B.
-    destruct (B Hx Hb) as (_ & _ & _ & _ & F & _). rewrite Er in F. exact F. }
+  { assert (Hm' : In m (e_rows shape_enum)) by (apply canonical_incl; auto).
+    assert (Hc : canon_of (e_rows shape_enum) m = m) by (apply canon_of_canonical; auto).
+    pose proof (bijective shape_enum shape_enum_in m Hm') as B. cbv zeta in B. rewrite Hc in B.
+    destruct (B Hx Hb) as (_ & _ & _ & _ & F & _). exact F. }
   assert (Dv : default_adjustments spec_table (m_value m) = Ok (sp_av sp)).
   { unfold default_adjustments. rewrite S. reflexivity. }
   destruct (init_adjustments_fresh _ _ _ _ _ F Dv) as (l & I & N1 & N2 & N3).
@@ -176,8 +175,8 @@ Lemma charts : forall r, In r chart_rows -> memN (c_id r) known_charts = false -
   /\ (forall p, In p (c_tokens r) -> token_in_P stypes (fst p) (snd p))
   /\ c_inspected r = Some (c_value r).
 Proof.
-  intros r Hr Hk. pose proof (proj1 (forallb_forall _ _) all_charts r Hr) as H. simpl in H.
-  rewrite Hk in H. simpl in H. apply chart_ok_sound. exact H.
+  intros r Hr Hk. pose proof (proj1 (forallb_forall _ _) all_charts r Hr) as H. cbv beta in H.
+  rewrite Hk in H. cbn [negb orb] in H. apply chart_ok_sound. exact H.
 Qed.
 
 Lemma all_charts_refuted : forallb (fun r => negb (memN (c_id r) known_charts) || negb (chart_ok stypes chart_types r)) chart_rows = true.
@@ -186,8 +185,8 @@ Proof. vm_compute. reflexivity. Qed.
 Lemma charts_known_refuted : forall r, In r chart_rows -> memN (c_id r) known_charts = true ->
   chart_ok stypes chart_types r = false.
 Proof.
-  intros r Hr Hk. pose proof (proj1 (forallb_forall _ _) all_charts_refuted r Hr) as H. simpl in H.
-  rewrite Hk in H. simpl in H. apply negb_true_iff in H. exact H.
+  intros r Hr Hk. pose proof (proj1 (forallb_forall _ _) all_charts_refuted r Hr) as H. cbv beta in H.
+  rewrite Hk in H. cbn [negb orb] in H. apply negb_true_iff in H. exact H.
 Qed.
 
 Lemma dispatch_is_table : forall v w, writer_dispatch chart_rows v = Ok w ->
